@@ -126,7 +126,7 @@ def run(tier):
         m = fmeta[i]
         if m[0] == 'none' or m[2] is None:
             continue
-        if m[2][1] == 'gexgroup' and any(t in m[1] for t in ('randmut', 'strlen', 'random')):
+        if m[2][1] == 'gexgroup' and any(t in m[1] for t in ('randmut', 'strlen', 'strbyte', 'random')):
             continue
         sc = dict(fsc[i])
         sc['argv'] = [a for a in sc['argv'] if a != '--skip-rate-test']
